@@ -134,7 +134,7 @@ func sceneGenesis(o ReqOpts) {
 	if hasWA {
 		nWA = 1
 	}
-	chk("C19", len(gs.WithdrawAddresses) == nWA, "export-lists-withdraw-addresses")
+	chk("C19 C13", len(gs.WithdrawAddresses) == nWA, "export-lists-withdraw-addresses")
 
 	// ---- import into a fresh chain and export again
 	k2, ctx2 := vf.Env()
@@ -162,7 +162,7 @@ func sceneGenesis(o ReqOpts) {
 	y2, fy2 := k2.GetRequestContext(ctx2, id2)
 	chk("C19", vf.All(fy1, fy2, y1.State == types.PAUSED, sameContext(y1, y2)), "second-context-survives")
 	if hasWA {
-		chk("C19", k2.GetWithdrawAddress(ctx2, s.Owner).Equals(wa), "withdraw-addresses-survive")
+		chk("C19 C13", k2.GetWithdrawAddress(ctx2, s.Owner).Equals(wa), "withdraw-addresses-survive")
 	}
 	// rebuilt on import: parsed pricing and ownership indexes
 	px := k2.GetPricing(ctx2, Svc+"x", s.Provs[0])
@@ -222,4 +222,26 @@ func sceneEnumProtoJSON() {
 	real := vf.ProtoJSONRoundTrip(rc, model)
 	vf.Assume(real == model)
 	chk("C19", real, "exported-context-can-be-read-back-by-the-application's-json-codec")
+}
+
+// sceneGenesisWithdrawAddrs: the withdrawal addresses of several owners through export and import (kept apart from
+// sceneGenesis: every further record under a walked prefix multiplies that scene's paths). Owner 1's record may be
+// the owner itself (an address set back to the default), owner 2's is another account; either may come first.
+func sceneGenesisWithdrawAddrs() {
+	k, ctx := vf.Env()
+	ctx, _, _ = Block(ctx)
+	o1, o2 := vf.Addr("owner1", 20), vf.Addr("owner2", 20)
+	distinct(o1, o2)
+	wa1, wa2 := vf.Addr("withdrawAddr1", 20), vf.Addr("withdrawAddr2", 20)
+	vf.Assume(!wa2.Equals(o2))
+	k.SetWithdrawAddress(ctx, o1, wa1)
+	k.SetWithdrawAddress(ctx, o2, wa2)
+	gs := service.ExportGenesis(ctx, k)
+	chk("C19 C13", len(gs.WithdrawAddresses) == 2, "export-lists-every-withdraw-address")
+	chk("C19", types.ValidateGenesis(*gs) == nil, "exported-genesis-validates")
+	k2, ctx2 := vf.Env()
+	ipanic := vf.Try(func() { service.InitGenesis(ctx2, k2, *gs) })
+	chk("C19 C20", !ipanic, "import-no-panic")
+	vf.Assume(!ipanic)
+	chk("C19 C13", vf.And(k2.GetWithdrawAddress(ctx2, o1).Equals(wa1), k2.GetWithdrawAddress(ctx2, o2).Equals(wa2)), "every-owner's-withdraw-address-survives")
 }
